@@ -30,6 +30,14 @@ def parseSrc (kind arg : String) : Option Src :=
   else if kind == "t" then (parseNats arg).map Src.trees
   else none
 
+/-- `t.3.1.1` = tree 3 into namespace 1 with unify; items separated by `,` -/
+def parseMig (w : String) : Option Mig :=
+  match w.splitOn "." with
+  | [k, o, n, u] => do
+    let kind ← if k == "t" then some MigKind.tree else if k == "l" then some MigKind.list else if k == "m" then some MigKind.mat else none
+    some { kind := kind, obj := (← o.toNat?), ns := (← n.toNat?), unify := (← parseBool u) }
+  | _ => none
+
 def parseOp (ws : List String) : Option Op :=
   match ws with
   | ["ns", cs, labs] => do some (.ns (← parseBool cs) (← parseLabels labs))
@@ -79,6 +87,7 @@ def parseOp (ws : List String) : Option Op :=
   | ["tlget", n, pre, docs] => do some (.tlget (← n.toNat?) (← parseLabels pre) (← parseDocs docs))
   | ["tget", n, pre, labs] => do some (.tget (← n.toNat?) (← parseLabels pre) (← parseLabels labs))
   | ["mget", n, last, pre, rows] => do some (.mget (← n.toNat?) (← parseBool last) (← parseLabels pre) (← parseLabels rows))
+  | ["chain", gs] => do some (.chain (← if gs == "=" then some [] else (gs.splitOn ",").mapM parseMig))
   | ["taadd", n, t] => do some (.taadd (← n.toNat?) (← t.toNat?))
   | _ => none
 
